@@ -141,7 +141,9 @@ CLAIMED = {
             "configuration (which classes share a metaclass object, arbitrary key functions). Correspondence: fresh classes per history (own metaclass, shared metaclass object, subclasses, custom hash "
             "function), argument pool with equal hashes (-1/-2), 1/1.0/True, keyword permutations; the instance maps are read back after every call; the oracle keeps the statement's own (class, key) book.",
             "Keys are compared with ==; unhashable arguments (TypeError) are outside the model.", "DESIGN.md 3/C17"),
-    "C18": ("Lean 4 proof: state machine of true singletons over all histories (same object between clears, __init__ once with the first arguments, per-class, clear isolated / all / absent); exhaustive depth-2/3 + random correspondence",
+    "C18": ("Lean 4 proof: state machine of true singletons over all histories (same object between clears, __init__ once with the first arguments, per-class, clear isolated / all / absent); the complete one-step transition table of a four-class pool regenerated from the real metaclass on every run and re-proved equal to the model and to the statement by kernel evaluation; exhaustive depth-2/3 + random correspondence",
+            "Regenerated on every run (272 rows = 16 sets of classes having an instance x 17 calls: constructions with ordinary / raising / clearing-from-inside constructors, per-class and global clears; classes: "
+            "a class, its subclass, a class with falsy instances, a class whose metaclass derives from TrueSingleton): C18_ts_impl_eq_model, C18_ts_impl_eq_spec, C18_ts_table_complete, by decide +kernel. "
             "Theorems C18_wf_all_histories, C18_same_between_clears (arbitrary intervening operations on other classes), C18_init_once_first_args, C18_per_class, C18_distinct_instances, C18_clear_isolated, "
             "C18_clear_all, C18_clear_absent_harmless. Correspondence over three classes (one a subclass) with instance dict and __init__ log compared after every call.",
             "", "DESIGN.md 3/C18"),
